@@ -10,4 +10,5 @@ CONSTANTS
   BigInit = FALSE
   FollowUps = FALSE
 INVARIANTS InvRoundTrip InvSize InvLenCap InvFlexShape
+CONSTRAINT StrBound
 CHECK_DEADLOCK FALSE
